@@ -19,6 +19,13 @@ for o in ["OneComplOp", "ShLeftOp", "ShRightOp", "BitMirrorOp", "BinAndOp", "Bin
 for o in ["MultOp", "SubOp", "AddOp", "DivOp", "EqOp", "UneqOp", "GtOp", "LtOp", "GeOp", "LeOp"]:
     op(o, entry=o + "_f", defs=["-DVERIF_OPT_FLOAT"], fn=o)
 
+GROUPS.append(G("op_table", OPS, "h_OperatorTable", enforce=[], link=LINK, stubs=STUBS, unwind=32, timeout=300, dfcc=False, functions=["Operators[]"]))
+GROUPS.append(G("op_PotOp_int", OPS, "h_PotOp_int", enforce=[], link=LINK, stubs=STUBS, unwind=6, timeout=300, dfcc=False, functions=["PotOp"], solver="kissat",
+                bounded="exponent <= 2 (two 64-bit multiplier equivalences already exceed 300 s on every installed SAT back end)"))
+GROUPS.append(G("op_PotOp_f", OPS, "h_PotOp_f", enforce=[], link=LINK, stubs=STUBS, defs=["-DVERIF_OPT_FLOAT"], unwind=6, timeout=300, dfcc=False, functions=["PotOp"], solver="kissat",
+                bounded="negative base, exponent 1.0 (the accumulated product is returned, not the squared base)"))
+GROUPS.append(G("op_PotOp_f2", OPS, "h_PotOp_f", enforce=[], link=LINK, stubs=STUBS, defs=["-DVERIF_OPT_FLOAT", "-DVERIF_POT_EXP2"], unwind=6, timeout=1500, dfcc=False, functions=["PotOp"], solver="kissat", tier="thorough",
+                bounded="negative base, exponent 2.0 (one FP multiplier equivalence)"))
 FUNCS = "harness/C08/functions.c"
 def fn(name, entry=None, defs=None, unwind=None, link=None, **kw):
     GROUPS.append(G("fn_" + (entry or name), FUNCS, "h_" + (entry or name), enforce=[name],
